@@ -381,10 +381,18 @@ def assess(chk, mod):
         for has_bkg in (True, False):
             stats = {'aic': v('aic'), 'p_value': v('p')}
             bk = {'aic': v('aic_bkg')} if has_bkg else None
+            import inspect
+            try:
+                inspect.signature(mod._assess_fit).bind('D', 'PK', {}, stats, bk, fit_requirements=Req)
+            except TypeError as e:
+                raise core.Unsupported(f'_assess_fit does not take (data, peak, popt, stats, background stats, fit_requirements) any more: {e}') from None
             paths = chk.explore(lambda: mod._assess_fit('D', 'PK', {}, stats, bk, fit_requirements=Req), base=[], catch=(Exception,))
             A = mod.FitAssessment
             seen = set()
             for i, p in enumerate(paths):
+                if p.kind != 'return' and isinstance(p.value, TypeError | AttributeError | KeyError):
+                    # the opaque operands (tokens for data and peak, a dict of two statistics) were asked for something they do not have
+                    raise core.Unsupported(f'the stand-ins of this contract do not cover this shape of the code: {p.value!r}'[:200])
                 if p.kind != 'return':
                     chk.decided(f'{pre}/no-raise[bkg={has_bkg}/path{i}]', False, detail=repr(p.value)[:200])
                     continue
@@ -441,6 +449,21 @@ def bt(x):
     return z3.BoolVal(bool(x))
 
 
+def _private(chk, fn, make_args, make_kwargs=lambda: {}):
+    """run a private helper on stand-in operands: if it does not take these operands any more (other signature), or asks the stand-ins
+    for something they do not have, the contract does not address the code as it is now (Unsupported -> the section is demoted)"""
+    import inspect
+    try:
+        inspect.signature(fn).bind(*make_args(), **make_kwargs())
+    except TypeError as e:
+        raise core.Unsupported(f'{getattr(fn, "__name__", fn)} does not take these operands any more: {e}') from None
+    paths = chk.explore(lambda: fn(*make_args(), **make_kwargs()), base=[], catch=(Exception,))
+    for p in paths:
+        if p.kind != 'return' and isinstance(p.value, TypeError | AttributeError | KeyError):
+            raise core.Unsupported(f'the stand-ins of this contract do not cover this shape of the code: {p.value!r}'[:200])
+    return paths
+
+
 def predicates(chk, mod):
     chk.function(MOD, '_peak_is_near_edge')
     chk.function(MOD, '_curve_points_down')
@@ -454,7 +477,7 @@ def predicates(chk, mod):
         coords = {'x': Coord()}
     try:
         loc = v('loc', NAMED['m'])
-        paths = chk.explore(lambda: mod._peak_is_near_edge(D(), {'peak_loc': loc}), base=[], catch=(Exception,))
+        paths = _private(chk, mod._peak_is_near_edge, lambda: (D(), {'peak_loc': loc}))
         x0, x1, st, lc = R('x_first'), R('x_last'), R('min_step'), R('loc')
         for p in paths:
             if p.kind != 'return':
@@ -465,11 +488,11 @@ def predicates(chk, mod):
     finally:
         sc_.min = saved_min
     amp = v('amp')
-    paths = chk.explore(lambda: mod._curve_points_down({'peak_amplitude': amp}), base=[], catch=(Exception,))
+    paths = _private(chk, mod._curve_points_down, lambda: ({'peak_amplitude': amp},))
     for p in paths:
         if p.kind == 'return':
             chk.prove(f'{MOD}:_curve_points_down/result<=>amplitude<0[{paths.index(p)}]', p.axioms + p.pc, bt(p.value) == (R('amp') < 0))
-    ps = chk.explore(lambda: mod._curve_points_down({}), base=[], catch=(Exception,))
+    ps = _private(chk, mod._curve_points_down, lambda: ({},))
     chk.decided(f'{MOD}:_curve_points_down/no-amplitude-parameter->False', len(ps) == 1 and ps[0].value is False)
 
     class Pk(core.MockBase):
@@ -478,7 +501,7 @@ def predicates(chk, mod):
 
     class Rq:
         max_peak_width_factor = 0.75
-    paths = chk.explore(lambda: mod._peak_is_too_wide(D(), Pk(), {}, Rq), base=[], catch=(Exception,))
+    paths = _private(chk, mod._peak_is_too_wide, lambda: (D(), Pk(), {}, Rq))
     for p in paths:
         if p.kind == 'return':
             chk.prove(f'{MOD}:_peak_is_too_wide/result<=>fwhm>factor*(last-first)[{paths.index(p)}]', p.axioms + p.pc,
@@ -713,9 +736,33 @@ def end_to_end_failures(n, seed, limit=3):
             fails.append({**desc, 'problem': prob})
             if len(fails) >= limit:
                 break
+    # windows of 3 .. 8 points with lists of models that differ in their number of parameters (5, 6 and 7): whichever combination is
+    # reported, it has no more parameters than the window has points, or the result says that the window is too narrow
+    xg = np.arange(0, 200) * 0.1
+    yg = 5 + 0.3 * xg + 120 * np.exp(-(xg - 10.02) ** 2 / (2 * 0.15 ** 2)) + np.sin(np.arange(200) * 1.7)
+    dg = sc.DataArray(sc.array(dims=['x'], values=yg, variances=np.abs(yg) + 1, unit='counts'), coords={'x': sc.array(dims=['x'], values=xg, unit='angstrom')})
+    for width, spec_b, spec_p in itertools.product((0.25, 0.35, 0.45, 0.55, 0.65, 0.75), (['quadratic', 'linear'], ['linear', 'quadratic']), (['pseudo_voigt', 'gaussian'], 'gaussian')):
+        if len(fails) >= limit:
+            break
+        ident = f'narrow:{width}:{"/".join(spec_b)}:{spec_p if isinstance(spec_p, str) else "/".join(spec_p)}'
+        try:
+            with warnings.catch_warnings():
+                warnings.simplefilter('ignore')
+                res = peaks.fit_peaks(dg, peak_estimates=sc.array(dims=['x'], values=[10.0], unit='angstrom'), windows=sc.scalar(width, unit='angstrom'), background=spec_b, peak=spec_p)
+            r = res[0]
+            npts = dg['x', r.window[0]:r.window[1]].sizes['x']
+            if npts < len(r.popt) and r.assessment != fp.FitAssessment.window_too_narrow:
+                fails.append({'id': ident, 'problem': f'the window holds {npts} points for the {len(r.popt)} parameters of the reported combination but the result is {r.assessment.name}'})
+        except Exception as e:  # noqa: BLE001
+            fails.append({'id': ident, 'problem': f'fit_peaks raised {type(e).__name__}: {e}'[:200]})
     # non-uniform grid: the point closest to the fitted location can be an end point
     try:
         import scipp as sc
+        import inspect
+        try:
+            inspect.signature(getattr(fp, '_peak_is_too_narrow', None)).bind(0, 1, 2, 3)
+        except (TypeError, ValueError):
+            return fails[:limit]     # not there with these operands: nothing to probe under that name
         coord = sc.array(dims=['x'], values=[0.0, 0.1, 0.2, 0.3, 10.0], unit='m')
         d = sc.DataArray(sc.array(dims=['x'], values=[1.0, 2, 3, 2, 1], variances=[1.0] * 5), coords={'x': coord})
         fp._peak_is_too_narrow(d, peaks.model.GaussianModel(prefix='peak_'), {'peak_loc': sc.scalar(6.0, unit='m'), 'peak_scale': sc.scalar(1.0, unit='m'),
@@ -790,6 +837,13 @@ def requirement_failures(n, seed, limit=3):
     fp = real_module('peaks._fit_peaks')
     common = real_module('peaks._common')
     model = real_module('peaks.model')
+    import inspect
+    for name_, nargs in (('_peak_is_near_edge', 2), ('_curve_points_down', 1), ('_peak_is_too_wide', 4), ('_peak_is_too_narrow', 4)):
+        fn_ = getattr(fp, name_, None)
+        try:
+            inspect.signature(fn_).bind(*range(nargs))
+        except (TypeError, ValueError):
+            return None    # the predicates are not there under these names / with these operands: the requirements are compared on whole fits (end-to-end-fits)
     rng = np.random.default_rng(seed)
     fails = []
     for i in range(n):
@@ -847,8 +901,12 @@ def requirement_failures(n, seed, limit=3):
 def bounded_end_to_end(chk):
     nr = 600 if chk.tier == 'quick' else 20000
     rf = requirement_failures(nr, 23 + chk.seed)
-    chk.bounded_check('requirement-predicates', 'real _peak_is_near_edge / _curve_points_down / _peak_is_too_wide / _peak_is_too_narrow vs the stated requirements',
-                      f'{nr} random (grid, centre, width, amplitude, factors) with widths at 0.5 .. 2 times a threshold; uniform-ish, shrinking and growing spacing', nr, rf)
+    if rf is None:
+        chk.bounded_check('requirement-predicates', 'real _peak_is_near_edge / _curve_points_down / _peak_is_too_wide / _peak_is_too_narrow vs the stated requirements',
+                          'not run: the module has no such functions with these operands; the requirements of successful results are compared in end-to-end-fits', 0, [])
+    else:
+        chk.bounded_check('requirement-predicates', 'real _peak_is_near_edge / _curve_points_down / _peak_is_too_wide / _peak_is_too_narrow vs the stated requirements',
+                          f'{nr} random (grid, centre, width, amplitude, factors) with widths at 0.5 .. 2 times a threshold; uniform-ish, shrinking and growing spacing', nr, rf)
     nw = 400 if chk.tier == 'quick' else 10000
     wf = window_failures(nw, 17 + chk.seed)
     if wf is None:
@@ -870,7 +928,7 @@ def replay(rec):
         hit = [x for x in fails if 'index' not in f or x['index'] == f['index']]
         return {'reproduced': bool(hit), 'cases': hit[:1]}
     if f.get('kind') == 'requirements' or '/bounded/requirement-predicates/' in rec['obligation'] or '_assess_fit' in rec['obligation']:
-        fails = requirement_failures(int(f.get('index', 599)) + 1, int(f.get('seed', 23)), limit=10 ** 6)
+        fails = requirement_failures(int(f.get('index', 599)) + 1, int(f.get('seed', 23)), limit=10 ** 6) or []
         hit = [x for x in fails if 'index' not in f or x['index'] == f['index']]
         return {'reproduced': bool(hit), 'cases': hit[:1]}
     fails = end_to_end_failures(60, 90, limit=2)
